@@ -266,6 +266,13 @@ def check_edit(src, data, mi, e, presave=False, pre=None):
         apply_edit(obj, mi, e)
     except Exception as ex:
         return "rejected:" + type(ex).__name__, []
+    # The edited object is SAVED BEFORE the harness looks at it: reading every field (e.g. indexing the MIDI-map table for
+    # every controller) can itself complete lazily built state and so hide a writer that relies on that state being there.
+    save_error = None
+    try:
+        b_first = C.save(obj)
+    except Exception as ex:
+        b_first, save_error = None, ex
     s1 = S.snapshot(obj)
     d01 = S.diff(s0, s1, limit=60)
     bad = postcondition(e, s1, mi)
@@ -313,7 +320,9 @@ def check_edit(src, data, mi, e, presave=False, pre=None):
     # (1) what is saved is the edited object
     s1n = C.norm_project_for_compare(s1) if s1.get("kind") == "project" else dict(s1, module=C.norm_module_for_compare(s1["module"]))
     try:
-        b = C.save(obj)
+        if save_error is not None:
+            raise save_error
+        b = b_first
         o2 = C.load_bytes(b)
     except Exception as ex:
         vs.append(C.viol("edited-object-not-saveable-or-loadable", dict(key, exc=type(ex).__name__), {"error": repr(ex)[:200]}, case))
